@@ -417,13 +417,19 @@ CallerIdent(S, c) == {<<"caller", ToString(SidOf(S, c))>>,
 CanInterrupt(S, callee) == Has(S, callee, "callee:call_canceling")
 
 \* k = the registration chosen, callee = the callee chosen, inv = the invocation id
+\* Progressive call invocations: a CALL with the option progress is one chunk of a call that
+\* is continued by further CALLs with the same request id; o.prog = more chunks follow.
+CanPCI(S, x) == Has(S, x, "callee:progressive_call_invocations") /\ CanInterrupt(S, x)
+
 CallFx(S, s, req, proc, o, tag, k, callee, inv) ==
   LET c == <<s, req>> IN
   IF BestRegs(S, proc) = {}
   THEN Emit(S, s, ErrorMsg(T_CALL, req, ErrNoSuchProc, S))
   ELSE
     LET r == S.regs[k] IN
-    IF ~r.disclose /\ o.dme /\ ~S.cfg.disclose
+    IF o.prog /\ ~CanPCI(S, callee)
+    THEN Emit(S, s, ErrorMsg(T_CALL, req, ErrFeatureNotSupp, S))
+    ELSE IF ~r.disclose /\ o.dme /\ ~S.cfg.disclose
     THEN Emit(S, s, ErrorMsg(T_CALL, req, ErrDiscloseMe, S))
     ELSE
       LET ident == IF r.disclose \/ (o.dme /\ Has(S, callee, "callee:caller_identification"))
@@ -433,14 +439,24 @@ CallFx(S, s, req, proc, o, tag, k, callee, inv) ==
           fwdT  == o.tmo > 0 /\ Has(S, callee, "callee:call_timeout") /\ r.fwd
           tmo   == IF fwdT THEN {<<"timeout", ToString(o.tmo)>>} ELSE {}
           dl    == IF o.tmo > 0 /\ ~fwdT THEN S.now + o.tmo ELSE 0
+          more  == IF o.prog THEN {<<"progress", "true">>} ELSE {}
           im    == [Base EXCEPT !.k = "INVOCATION", !.req = inv, !.a = r.id,
                                 !.w = IF k[2] = "exact" THEN <<>> ELSE proc,
-                                !.d = ident \cup rprog \cup tmo, !.p = tag, !.t = S.now]
+                                !.d = ident \cup rprog \cup tmo \cup more, !.p = tag, !.t = S.now]
           S1    == [S EXCEPT !.calls = (c :> [callee |-> callee, inv |-> inv, reg |-> r.id,
-                                               canceled |-> FALSE, deadline |-> dl]) @@ @,
+                                               canceled |-> FALSE, deadline |-> dl, inprog |-> o.prog]) @@ @,
                              !.used.inv[callee] = @ \cup {inv},
                              !.regs[k].last = IF r.policy = "roundrobin" /\ Len(r.callees) > 1 THEN callee ELSE @]
       IN Emit(S1, callee, im)
+
+\* a further chunk of a call in progress: one INVOCATION to the same callee under the same
+\* invocation id (k = the registration the procedure matches now)
+InProgress(S, c) == c \in DOMAIN S.calls /\ S.calls[c].inprog /\ ~S.calls[c].canceled
+ChunkFx(S, s, req, proc, o, tag, k) ==
+  LET c == <<s, req>> cl == S.calls[c] IN
+  Emit([S EXCEPT !.calls[c].inprog = o.prog], cl.callee,
+       [Base EXCEPT !.k = "INVOCATION", !.req = cl.inv, !.a = S.regs[k].id,
+                    !.d = IF o.prog THEN {<<"progress", "true">>} ELSE {}, !.p = tag, !.t = S.now])
 
 CallPre(S, s, req, proc, k, callee, inv) ==
   /\ <<s, req>> \notin DOMAIN S.calls
